@@ -70,6 +70,17 @@ def oracle(pystog, case, res):
     if m["bcoh"] <= 0 or m["rho"] <= 0:
         return None
     o = {n: np.array(res[n], float) for n in FL.OUT}
+    # the same array objects given twice: the second call must see the same data (no variant alters what it was given)
+    ff = pystog.FourierFilter()
+    arrs = [np.array(case[k], float) for k in ("r", "gr", "q", "y")]
+    da = None if case["dgr"] is None else np.array(case["dgr"], float)
+    db = None if case["dy"] is None else np.array(case["dy"], float)
+    fvar = getattr(ff, case["desc"]["variant"])
+    kwv = L.kwargs_of(m)
+    first = fvar(arrs[0], arrs[1], arrs[2], arrs[3], case["cutoff"], da, db, **kwv)
+    second = fvar(arrs[0], arrs[1], arrs[2], arrs[3], case["cutoff"], da, db, **kwv)
+    if not all(np.array_equal(np.asarray(u, float), np.asarray(w, float), equal_nan=True) for u, w in zip(first, second)):
+        return "%s: calling twice with the same arrays gives different results (the data or uncertainties given were altered)" % case["desc"]["variant"]
     mine = back(case, o)
     cm = case["common"]
     ref_case = dict(case, R=0, Q=1, gr=cm["g"], y=cm["f"], dgr=cm["dg"], dy=cm["df"])
